@@ -26,7 +26,13 @@ package compress
 // effective levels after clamping (documented fall-back to the library defaults)
 //@ spec func gzipLevel(l int) int := (l <= 0 || l > 9) ? -1 : l
 //@ spec func brLevel(l int) int := (l <= 0 || l > 11) ? 6 : l
-//@ spec func levelOf(srv *compressSrv, enc string) int
+// the configured level of an encoding: the cell registered for it, 0 when there is none
+//@ spec func levelOf(srv *compressSrv, enc string) int := has(srv.levels, enc) ? srv.levels[enc].v : 0
+// a service owns one distinct non-nil level cell per known encoding; the map itself never changes
+//@ typeinv compressSrv(srv) by NewService: srv.levels != nil
+//@     && (forall e string :: has(srv.levels, e) ==> srv.levels[e] != nil)
+//@     && (forall e1, e2 string :: has(srv.levels, e1) && has(srv.levels, e2) && e1 != e2 ==> srv.levels[e1] != srv.levels[e2])
+//@ immutable compressSrv: levels
 
 //@ func (srv *compressSrv) GetLevel(encoding string) (level int)
 //@   requires [recv] srv != nil
@@ -58,3 +64,33 @@ package compress
 //@   requires [recv] srv != nil
 //@   nopanic
 //@   ensures [codec] err == nil ==> contents(out) == brDec(contents(data))
+
+//@ func NewService() (srv *compressSrv)
+//@   nopanic
+//@   ensures [fresh]    fresh(srv)
+//@   ensures [defaults] levelOf(srv, "gzip") == -1 && levelOf(srv, "br") == 6
+//@   ensures [known]    forall e string :: has(srv.levels, e) <==> (e == "gzip" || e == "br")
+
+// only known encodings are set, each to the (int32) value given; all other levels stay
+//@ func (srv *compressSrv) SetLevels(levels map[string]int)
+//@   requires [recv] srv != nil
+//@   modifies atomic.Int32::v
+//@   nopanic
+//@   ensures [set]  forall e string :: levelOf(srv, e) == ((has(srv.levels, e) && has(levels, e)) ? int32(levels[e]) : old(levelOf(srv, e)))
+//@   loop 0: modifies atomic.Int32::v
+//@   loop 0: invariant [pos]  0 <= $mi && $mi <= $mn
+//@   loop 0: invariant [done] forall e string :: levelOf(srv, e) == ((has(srv.levels, e) && has(levels, e) && $midx[e] < $mi) ? int32(levels[e]) : old(levelOf(srv, e)))
+
+//@ typeinv compressSrvs(cs) by NewServices: cs.m != nil
+//@ immutable compressSrvs: m
+// every configured profile is registered as a service freshly built from that option alone
+// (defaults for the levels the option does not mention) - exactly what a fresh start registers
+//@ func (cs *compressSrvs) Reset(opts []CompressOption)
+//@   requires [recv] cs != nil
+//@   modifies cs.m.dom, cs.m.vals, atomic.Int32::v
+//@   ensures [registered] forall j int :: 0 <= j && j < len(opts) ==> cs.m.dom[box(opts[j].Name)] && fresh(unbox(cs.m.vals[box(opts[j].Name)], "*compressSrv"))
+//@   ensures [kept]       forall k any :: old(cs.m.dom[k]) ==> cs.m.dom[k]
+//@   loop 0: modifies cs.m.dom, cs.m.vals, atomic.Int32::v
+//@   loop 0: invariant [idx]  -1 <= $idx && $idx < len(opts) && cs.m != nil
+//@   loop 0: invariant [registered] forall j int :: 0 <= j && j <= $idx ==> cs.m.dom[box(opts[j].Name)] && fresh(unbox(cs.m.vals[box(opts[j].Name)], "*compressSrv"))
+//@   loop 0: invariant [kept] forall k any :: old(cs.m.dom[k]) ==> cs.m.dom[k]
